@@ -24,10 +24,11 @@ def main():
     R2 = "--round2" in flags
     R3 = "--round3" in flags
     R4 = "--round4" in flags
+    R5 = "--round5" in flags
     pid = argv[0]
     ks = argv[1:] or (["1", "2", "3", "4"] if REF else ["1", "2", "3"])
-    SRC = "/tmp/ref-%s-out/r%%s" % pid if REF else ("/tmp/mut2-%s-out/m%%s" % pid if R2 else ("/tmp/mut3-%s-out/m%%s" % pid if R3 else ("/tmp/mut4-%s-out/m%%s" % pid if R4 else "/tmp/mut-%s-out/m%%s" % pid)))
-    DSTK = "r" if REF else ("n" if R2 else ("q" if R3 else ("s" if R4 else "m")))
+    SRC = "/tmp/ref-%s-out/r%%s" % pid if REF else ("/tmp/mut2-%s-out/m%%s" % pid if R2 else ("/tmp/mut3-%s-out/m%%s" % pid if R3 else ("/tmp/mut4-%s-out/m%%s" % pid if R4 else ("/tmp/mut5-%s-out/m%%s" % pid if R5 else "/tmp/mut-%s-out/m%%s" % pid))))
+    DSTK = "r" if REF else ("n" if R2 else ("q" if R3 else ("s" if R4 else ("t" if R5 else "m"))))
     base = json.load(open("/root/.vp/BASELINE.json"))
     stable = set(base["stable_pass"])
     wt = "/tmp/vm-%s" % pid
@@ -97,7 +98,7 @@ def main():
                 continue
             cmd = open(src + "/demo_cmd.txt").read().strip()
             cmd_line = " && ".join(l for l in cmd.split("\n") if l.strip() and not l.strip().startswith("#"))
-            pre = "/tmp/mut2-%s" % pid if R2 else ("/tmp/mut3-%s" % pid if R3 else ("/tmp/mut4-%s" % pid if R4 else "/tmp/mut-%s" % pid))
+            pre = "/tmp/mut2-%s" % pid if R2 else ("/tmp/mut3-%s" % pid if R3 else ("/tmp/mut4-%s" % pid if R4 else ("/tmp/mut5-%s" % pid if R5 else "/tmp/mut-%s" % pid)))
             cmd_line = cmd_line.replace(pre + "-out", "@@OUT@@").replace(pre, wt).replace("@@OUT@@", pre + "-out")
             rc_with, out_with = sh(cmd_line, wt, timeout=1800)
             # demo without the patch
